@@ -119,11 +119,22 @@ def finish(check):
             known_hit.append((v, known_keys[(v.prop, v.key)]))
         else:
             new.append(v)
+    printed = set()
     for v, k in known_hit:
-        print('KNOWN-FINDING: property=%s %s [%s %s]' % (v.prop, k.get('what', v.what), v.rule, v.key))
+        if v.key in printed:
+            continue
+        printed.add(v.key)
+        print('KNOWN-FINDING: property=%s %s [%s %s]' % (v.prop, k.get('what', v.what), v.rule.split('@')[0], v.key))
     rdir = os.path.join(OUT, 'replays')
     if new:
         os.makedirs(rdir, exist_ok=True)
+    seen_new = set()
+    uniq = []
+    for v in new:
+        if v.key not in seen_new:
+            seen_new.add(v.key)
+            uniq.append(v)
+    new = uniq
     for i, v in enumerate(new):
         path = os.path.join(rdir, '%s-%d.json' % (check.prop, i))
         with open(path, 'w') as f:
